@@ -1424,7 +1424,11 @@ func (m *RadioTap) DecodeFromBytes(data []byte, df gopacket.DecodeFeedback) erro
 			headlen += 2
 		}
 		if headlen%4 == 2 && len(payload) >= headlen+2 {
-			payload = append(payload[:headlen], payload[headlen+2:len(payload)]...)
+			// into a new slice: appending in place would shift the bytes
+			// of the packet data (the caller's buffer with NoCopy)
+			unpadded := make([]byte, 0, len(payload)-2)
+			unpadded = append(unpadded, payload[:headlen]...)
+			payload = append(unpadded, payload[headlen+2:]...)
 		}
 	}
 
